@@ -1,6 +1,7 @@
 import PyrexVerif.Proofs.AskaryanZHSMove
 import PyrexVerif.Proofs.AskaryanAVZ2
 import PyrexVerif.Proofs.AskaryanARZMove3
+import PyrexVerif.Proofs.AskaryanRound4
 import PyrexVerif.Proofs.AskaryanFinite
 /-!
 # C07 — Askaryan pulses obey their scaling laws and fail gracefully
@@ -403,6 +404,64 @@ theorem C07_em_on_cone_linear_in_E_arz (times : List ℝ) (lam E em psi dist n t
     arzValues times (lam * E) em 0 psi dist n t0 = (arzValues times E em 0 psi dist n t0).map (fun v => lam * v) :=
   arz_oncone_linear times lam E em psi dist n t0 hl hpsi
 
+/-! ## far-away shower times: ZHS and AVZ return the all-zero trace of the right length -/
+
+/-- outside the placement range (`|int((t0-times[0])/dt) - N/2| > N`) every ZHS sample is zero -/
+theorem C07_far_shower_time_zero_zhs (times : List ℝ) (E em had psi dist n t0 : ℝ) (h : ¬ zhsInRange times t0) :
+    zhsValues times E em had psi dist n t0 = List.replicate times.length 0 :=
+  zhs_far_zero times E em had psi dist n t0 h
+
+/-- outside the placement range (`|⌊(t0-times[0])/dt⌋ - L/2| > L`) every AVZ sample is zero, the extrapolated
+last sample of an odd-length grid included -/
+theorem C07_far_shower_time_zero_avz (times : List ℝ) (E em had psi dist n t0 : ℝ) (h : ¬ avzInRange times t0) :
+    avzValues times E em had psi dist n t0 = List.replicate times.length 0 :=
+  avz_far_zero times E em had psi dist n t0 h
+
+/-! ## the zero crossing of `int()` in the ARZ whole-sample move (what `_partial` leaves open, made precise)
+
+When `x = (t_start+10 ns)/(dt/dt_divider)` is positive and not an integer but `x - m·dt_divider` is negative,
+`n_shift' = n_shift - m·dt_divider + 1` (`_index`), and the potential is sampled on the old grid advanced by one
+sub-sample, `t_RAC'[i+1] = t_RAC[i]` (`_grid`): the moved trace is the old one moved by `m` samples except for the
+contribution of the one tail sample (at about -10 ns) that enters and the one (at about +10 ns) that leaves.  No
+equality of the traces holds there, and none is claimed. -/
+
+theorem C07_whole_sample_move_arz_zero_crossing_index (x : ℝ) (k : ℕ) (hx : 0 < x) (hxk : x - k < 0)
+    (hni : (⌊x⌋ : ℝ) ≠ x) : Rtrunc (x - k) = Rtrunc x - k + 1 :=
+  rtrunc_sub_nat_crossing x k hx hxk hni
+
+theorem C07_whole_sample_move_arz_zero_crossing_grid (i : ℕ) (nShift d : ℤ) (m : ℕ) (dt zToT tStart : ℝ)
+    (hd : (d : ℝ) ≠ 0) (hz : zToT ≠ 0) :
+    RofInt (((i + 1 : ℕ) : ℤ) - (nShift - m * d + 1)) * (dt / RofInt d / zToT) * zToT + (tStart - m * dt)
+      = RofInt ((i : ℤ) - nShift) * (dt / RofInt d / zToT) * zToT + tStart :=
+  arz_tRAC_crossing i nShift d m dt zToT tStart hd hz
+
+/-! ## any ice model: the Cherenkov angle comes from the index of the *supplied* model at the vertex
+
+All theorems above hold for every index `n > 1`; `zhsValuesIn / avzValuesIn / arzValuesIn I … z …` are the
+signal classes for the ice model `I` (the `Ice` of C16: any `n0, k, a`, range and declared outside indices) and
+vertex depth `z`. -/
+
+/-- two ice models with the same index at the vertex give the same pulses; nothing else of the ice is read -/
+theorem C07_ice_enters_through_vertex_index (I J : Ice) (times : List ℝ) (E em had psi dist z t0 : ℝ)
+    (h : I.index z = J.index z) :
+    zhsValuesIn I times E em had psi dist z t0 = zhsValuesIn J times E em had psi dist z t0 ∧
+    avzValuesIn I times E em had psi dist z t0 = avzValuesIn J times E em had psi dist z t0 ∧
+    arzValuesIn I times E em had psi dist z t0 = arzValuesIn J times E em had psi dist z t0 := by
+  simp [zhsValuesIn, avzValuesIn, arzValuesIn, h]
+
+/-- for any ice model with index above 1 at the vertex: on *its* cone (`|psi| = arccos(1/I.index z)`) the ARZ
+and AVZ fields of an EM shower are proportional to the energy, and ZHS falls off from *its* Cherenkov angle -/
+theorem C07_any_ice_model (I : Ice) (times : List ℝ) (lam E em psi dist z t0 : ℝ) (hl : lam ≠ 0)
+    (hpsi : Rabs psi = thetaC (I.index z)) :
+    arzValuesIn I times (lam * E) em 0 psi dist z t0 = (arzValuesIn I times E em 0 psi dist z t0).map (fun v => lam * v) ∧
+    avzValuesIn I times (lam * E) em 0 psi dist z t0 = (avzValuesIn I times E em 0 psi dist z t0).map (fun v => lam * v) ∧
+    (∀ energy f t1 t2, 0 < energy → 0 < dist → f ≠ 0 →
+      |t1 - thetaC (I.index z)| < |t2 - thetaC (I.index z)| →
+      zhsAmp energy dist t2 (thetaC (I.index z)) f < zhsAmp energy dist t1 (thetaC (I.index z)) f) :=
+  ⟨arz_oncone_linear times lam E em psi dist (I.index z) t0 hl hpsi,
+   avz_oncone_linear times lam E em psi dist (I.index z) t0 hpsi,
+   fun energy f t1 t2 hE hR hf h => C07_zhs_amplitude_max_on_cone energy dist (thetaC (I.index z)) f t1 t2 hE hR hf h⟩
+
 /-! ## non-vacuity: concrete instances of the hypotheses -/
 
 /-- a four-sample grid with `dt = 1`, shower time `t0 = 1.5`, moved by one sample: both in range -/
@@ -475,3 +534,46 @@ example : ArzShowerMoves [0, 1, 2, (3 : ℝ)] 1e9 (thetaC 1.78) 1.78 1.5 1 ∧ A
       have : k = 0 ∨ k = 1 ∨ k = 2 ∨ k = 3 := by simp at hk; omega
       rcases this with rfl | rfl | rfl | rfl <;> simp
   · left; constructor <;> norm_num
+
+/-- a shower time far outside the window violates `zhsInRange` / `avzInRange` (hypothesis of the far-zero theorems) -/
+example : ¬ zhsInRange [0, 1, 2, (3 : ℝ)] 100 ∧ ¬ avzInRange [0, 1, 2, (3 : ℝ)] 100 := by
+  have hd : gridDt [0, 1, 2, (3 : ℝ)] = 1 := by simp [gridDt]
+  have t1 : Rtrunc (100 : ℝ) = 100 := by
+    simp only [Rtrunc]; rw [if_pos (by norm_num), Int.floor_eq_iff]; norm_num
+  have t2 : Rfloor (100 : ℝ) = 100 := by
+    simp only [Rfloor]; rw [Int.floor_eq_iff]; norm_num
+  have e : ((100 : ℝ) - [0, 1, 2, (3 : ℝ)].getD 0 0) / 1 = 100 := by simp
+  constructor
+  · unfold zhsInRange; rw [hd, e, t1, not_not]; decide
+  · unfold avzInRange; rw [hd, e, t2, not_not]; decide
+
+/-- the zero crossing happens: `x = 2.5`, `k = 4` -/
+example : (0 : ℝ) < 2.5 ∧ (2.5 : ℝ) - (4 : ℕ) < 0 ∧ ((⌊(2.5 : ℝ)⌋ : ℤ) : ℝ) ≠ 2.5 := by
+  have : ⌊(2.5 : ℝ)⌋ = 2 := by rw [Int.floor_eq_iff]; norm_num
+  rw [this]; norm_num
+
+/-- `C07_finite_arz`: the shower axis is off the cone of deep ice, and 1 EeV is above the critical energy -/
+example : (1 : ℝ) < 1.78 ∧ (0 : ℝ) ≤ 0 ∧ (0 : ℝ) ≤ Real.pi ∧ ¬ Rabs ((0 : ℝ) - Racos (1 / 1.78)) ≤ onconeRange
+    ∧ (Askc.maxlen_crit : ℝ) < 1e9 :=
+  ⟨by norm_num, le_refl _, Real.pi_pos.le, offcone_witness, by simp only [Askc.maxlen_crit]; norm_num⟩
+
+/-- `C07_finite_avz` / `C07_finite_zhs`: first frequency bin of a 64-sample, 0.5 ns grid, a 1 PeV hadronic shower -/
+example : 0 < 64 ∧ (0 : ℝ) < 5e-10 ∧ 0 < 1 ∧ (0 : ℝ) ≤ 1e6 ∧ ¬((1e6 : ℝ) ≤ 0 ∧ (0 : ℝ) ≤ 1e6) := by norm_num
+
+/-- `C07_finite_arz_LQtot`: a constant positive profile -/
+example : let Q : Arr := ⟨3, fun _ => 1⟩
+    (∀ i, i < Q.len → 0 ≤ Q.get i) ∧ 0 + 1 < Q.len ∧ 0 < Q.get 0 := by
+  simp
+
+/-- `C07_ice_enters_through_vertex_index` / `C07_any_ice_model`: two different ice models that agree at the vertex
+(same profile, different declared index above the surface), and one whose index there exceeds 1 -/
+example : let I : Ice := ⟨1.78, 0.43, 0.0132, -2850, 0, some 1, none⟩
+    let J : Ice := ⟨1.78, 0.43, 0.0132, -2850, 0, some 1.2, none⟩
+    I ≠ J ∧ I.index (-100) = J.index (-100) := by
+  constructor
+  · intro h
+    have := congrArg Ice.above h
+    norm_num at this
+  · simp [Ice.index, Ice.profile]
+    norm_num
+
